@@ -148,19 +148,40 @@ def check(ctx):
             Vx = evs[0].args[0]
             ok = False
             why = f"voltage expression {Vx!r}"
+            lo_d, hi_d = LAWS[law]
             if isinstance(Vx, App) and Vx.op == "pow" and isinstance(Vx.args[1], (int, F)):
                 e = F(Vx.args[1])
                 base = Vx.args[0]
-                if isinstance(base, (Lin, App)):
+                X = None
+                a2 = None
+                if isinstance(base, (int, F)):
+                    X, a2 = F(base) * a, a  # the clamped distance folded to a literal bound on this path
+                elif isinstance(base, (Lin, App, Sym)):
                     bl = Lin.of(base)
                     if bl.const == 0 and len(bl.terms) == 1:
                         (atom, c), = bl.terms.items()
-                        cfs = ea.clamp_form(atom)
-                        if cfs is not None and cfs[0] == d:
-                            a2 = 1 / c
-                            lo_d, hi_d = LAWS[law]
-                            ok = a2 == a and e * b == 1 and (cfs[1], cfs[2]) == (lo_d, hi_d)
-                            why = f"((clamp(d, {float(cfs[1])}, {float(cfs[2])}))/{float(a2)})^{float(e)} against driver law {float(a)}*v^{float(b)} and range [{float(lo_d)}, {float(hi_d)}]"
+                        X, a2 = atom, 1 / c
+                if X is not None:
+                    cfs = ea.clamp_form(X) if isinstance(X, App) else None
+                    if cfs is not None and cfs[0] == d:
+                        good_x = (cfs[1], cfs[2]) == (lo_d, hi_d)
+                        shown = f"clamp(d, {float(cfs[1])}, {float(cfs[2])})"
+                    else:
+                        lower, upper = bounds_on(d, p.path)
+                        if X == d:
+                            good_x = lower is not None and upper is not None and lower >= lo_d and upper <= hi_d
+                            shown = f"d with {lower} <= d <= {upper}"
+                        elif isinstance(X, (int, F)) and X == hi_d:
+                            good_x = lower is not None and lower >= hi_d
+                            shown = f"{float(hi_d)} when d >= {lower}"
+                        elif isinstance(X, (int, F)) and X == lo_d:
+                            good_x = upper is not None and upper <= lo_d
+                            shown = f"{float(lo_d)} when d <= {upper}"
+                        else:
+                            good_x = False
+                            shown = repr(X)
+                    ok = good_x and a2 == a and e * b == 1
+                    why = f"(({shown})/{float(a2)})^{float(e)} against driver law {float(a)}*v^{float(b)} and range [{float(lo_d)}, {float(hi_d)}]"
             ctx.require(ok, "C17.O5", f"{S.name}.setDistance sets {why}: exact inverse of {K.name}", f"{S.name}.setDistance does not set the inverse of {K.name}'s law: {why}", site=site, key=f"C17.O5|{S.name}|inverse")
             ctx.require(back == d, "C17.O5", f"{S.name}.getDistance returns the distance that was set", f"{S.name}.getDistance returns {back!r} after setDistance(d)", site=site, key=f"C17.O5|{S.name}|readback")
         ctx.sample({"sim": S.name, "twin": K.name, "paths": len(paths)})
@@ -178,3 +199,21 @@ def _subterms(v):
         for a in v.args:
             out += _subterms(a)
     return out
+
+
+def bounds_on(d, path):
+    """(lower, upper) bounds on the symbol d entailed by the decided comparison atoms of a path"""
+    lower = upper = None
+    for atom, val, _ in path:
+        if atom[0] != "lt0":
+            continue
+        lin = atom[2]
+        if set(lin.terms) != {d}:
+            continue
+        c = lin.terms[d]
+        k = -lin.const / c  # lin < 0  <=>  c*d + const < 0
+        if (c > 0) == bool(val):
+            upper = k if upper is None else min(upper, k)  # d < k (or d <= k)
+        else:
+            lower = k if lower is None else max(lower, k)  # d > k (or d >= k)
+    return lower, upper
